@@ -652,7 +652,7 @@ def h_post_init():
             # per element: exactly one add_node of a fresh wrapper of that element; relations not yet created
             if any(c[0] == "relations" for c in calls):
                 return z3.BoolVal(False)
-            cur = fr.locals.get("clazz")
+            cur = it.loop_value(fr, 0)
             if not calls:
                 return z3.BoolVal(True)
             w = calls[-1][1]
@@ -691,7 +691,7 @@ def h_inheritance():
                 return False, "a loop was left early: later bases / classes are not visited"
             if not inner:
                 return not ws, f"writes outside the inner loop: {ws}"
-            node, base = fr.locals.get("clazz"), fr.locals.get("superclass")
+            node, base = it.loop_value(fr, 0), it.loop_value(fr, 1)
             if not isinstance(node, Obj) or not isinstance(base, AClass):
                 return not ws, f"writes before an element was taken: {ws}"
             mapped = D.cmap.memo.get(key_of(base))
@@ -769,7 +769,7 @@ def h_association():
                 return False, f"attribute writes {aw}"
             if any(n[0] == "early-exit" for n in ctx.notes):
                 return False, "a loop was left early: later fields / classes are not visited"
-            node, wf = fr.locals.get("clazz"), fr.locals.get("wrapped_field")
+            node, wf = vm.loop_value(fr, 0), vm.loop_value(fr, 1)
             if not inner or not isinstance(node, Obj) or not isinstance(wf, Obj):
                 return not ws, f"writes outside an inner iteration: {ws}"
             ep = wf.fields.get("__endpoint__")
